@@ -479,3 +479,246 @@ Proof.
   intros Hp Pa Pb. destruct (documented_pair_adds a b Hp) as [Ma Mb].
   apply stack_nesting; try assumption. apply documented_pair_before. exact Hp.
 Qed.
+
+(* ================= the rest of the documented order ================= *)
+Lemma gen_documented_order_rest : documented_order_rest gen_directives = true.
+Proof. vm_compute. reflexivity. Qed.
+
+Lemma list_beq_beq_eq : forall a b : list bytes, list_beq beq a b = true -> a = b.
+Proof.
+  induction a as [|x a IH]; intros [|y b] H; try discriminate; [reflexivity|].
+  cbn [list_beq] in H. apply andb_true_iff in H as [H1 H2]. apply beq_eq in H1. subst y.
+  f_equal. apply IH. exact H2.
+Qed.
+
+Lemma filter_andb {A} (p q : A -> bool) : forall l, filter (fun x => p x && q x) l = filter p (filter q l).
+Proof.
+  induction l as [|x r IH]; [reflexivity|]. cbn [filter].
+  destruct (q x); cbn [filter]; [destruct (p x); cbn [andb]; rewrite IH; reflexivity|].
+  rewrite andb_false_r. exact IH.
+Qed.
+
+Lemma gen_std_sequence : filter adds_mw gen_directives = adds_mw_list.
+Proof. apply list_beq_beq_eq. vm_compute. reflexivity. Qed.
+
+(* for EVERY http site: the stack is the documented sequence (written in the model, not read from
+   plugin.go) restricted to the directives present *)
+Lemma http_stack_documented {A} (errtok : A) (ls : list (@line A)) :
+  http_stack errtok gen_directives ls = filter (fun d => present d (http_inspect errtok ls)) adds_mw_list.
+Proof. rewrite http_stack_spec, filter_andb, gen_std_sequence. reflexivity. Qed.
+
+(* ================= histories of loads ================= *)
+Lemma step_dirs cbset s l : ps_dirs (fst (step cbset s l)) = ps_dirs s.
+Proof. reflexivity. Qed.
+
+Lemma hist_dirs cbset : forall h s, ps_dirs (run_hist wr_none cbset s h) = ps_dirs s.
+Proof.
+  induction h as [|l r IH]; intro s; [reflexivity|].
+  unfold run_hist in *. cbn [fold_left]. rewrite IH. reflexivity.
+Qed.
+
+(* a list discipline that never writes is all it takes — and it is necessary, see the Examples *)
+Lemma hist_dirs_gen wr cbset : (forall d l c, wr d l c = d) ->
+  forall h s, ps_dirs (run_hist wr cbset s h) = ps_dirs s.
+Proof.
+  intros Hwr. induction h as [|l r IH]; intro s; [reflexivity|].
+  unfold run_hist in *. cbn [fold_left]. rewrite IH. unfold step_gen. cbn [fst ps_dirs]. apply Hwr.
+Qed.
+
+Lemma order_is_history_independent cbset h s l :
+  ps_dirs (run_hist wr_none cbset s h) = ps_dirs s /\
+  snd (step cbset (run_hist wr_none cbset s h) l) = load_outcome cbset (ps_dirs s) l /\
+  (forall (A : Type) (errtok : A) (ls : list (@line A)),
+     http_stack errtok (ps_dirs (run_hist wr_none cbset s h)) ls = http_stack errtok (ps_dirs s) ls).
+Proof.
+  pose proof (hist_dirs cbset h s) as H. split; [exact H|]. split.
+  - unfold step, step_gen. cbn [snd]. rewrite H. reflexivity.
+  - intros A errtok ls. rewrite H. reflexivity.
+Qed.
+
+(* a load whose outcome was computed against the canonical list follows it (calls in list order) *)
+Lemma hist_next_load_follows_list cbset h s l t1 e1 t2 e2 t3 :
+  NoDup (ps_dirs s) ->
+  snd (snd (step cbset (run_hist wr_none cbset s h) l)) = t1 ++ e1 :: t2 ++ e2 :: t3 ->
+  (index_of (ev_dir e1) (ps_dirs s) <= index_of (ev_dir e2) (ps_dirs s))%nat.
+Proof.
+  intros Hnd Heq. destruct (order_is_history_independent cbset h s l) as [_ [Hr _]]. rewrite Hr in Heq.
+  unfold load_outcome in Heq.
+  destruct (negb (all_valid (ps_dirs s) (l_blocks l))); [destruct t1; discriminate|].
+  destruct (negb (l_syntax_ok l)); [destruct t1; discriminate|].
+  cbn [snd] in Heq. eapply trace_order; eassumption.
+Qed.
+
+(* ================= the compiled chain at request time ================= *)
+Lemma compile_cons {H} (m : H -> H) ms inner : compile (m :: ms) inner = m (compile ms inner).
+Proof. reflexivity. Qed.
+
+Lemma chain_run_gen stops : forall stack log,
+  compile (map (mw_of stops) stack) fileserver log = log ++ chain_trace stops stack.
+Proof.
+  unfold chain_trace. induction stack as [|d r IH]; intro log.
+  - reflexivity.
+  - cbn [map upto]. rewrite compile_cons. unfold mw_of at 1. destruct (stops d).
+    + reflexivity.
+    + rewrite IH. destruct (upto stops r) as [p s]. cbn [map rev].
+      rewrite map_app. cbn [map]. rewrite <- !app_assoc. reflexivity.
+Qed.
+
+Lemma chain_run_spec stops stack : chain_run stops stack = chain_trace stops stack.
+Proof. unfold chain_run. rewrite chain_run_gen. reflexivity. Qed.
+
+Lemma upto_split stops : forall l p s, upto stops l = (p, s) ->
+  (forall x, In x p -> stops x = false) /\
+  match s with
+  | None => l = p
+  | Some b => stops b = true /\ exists rest, l = p ++ b :: rest
+  end.
+Proof.
+  induction l as [|d r IH]; intros p s H; cbn [upto] in H.
+  - injection H as <- <-. split; [intros x []|reflexivity].
+  - destruct (stops d) eqn:Ed.
+    + injection H as <- <-. split; [intros x []|]. split; [exact Ed|]. exists r. reflexivity.
+    + destruct (upto stops r) as [p' s'] eqn:Eu. injection H as <- <-.
+      destruct (IH p' s' eq_refl) as [Hp Hs]. split.
+      * intros x [Hx|Hx]; [subst x; exact Ed | apply Hp; exact Hx].
+      * destruct s' as [b|].
+        -- destruct Hs as [Hb [rest Hr]]. split; [exact Hb|]. exists rest. rewrite Hr. reflexivity.
+        -- rewrite Hs. reflexivity.
+Qed.
+
+(* nobody answers: every handler of the stack is entered in stack order, the file server runs, and
+   they are left in reverse order — the chain nests exactly in list order *)
+Lemma chain_nests stops stack : (forall d, In d stack -> stops d = false) ->
+  chain_run stops stack = map HEnter stack ++ [HServed] ++ map HExit (rev stack).
+Proof.
+  intros Hno. rewrite chain_run_spec. unfold chain_trace.
+  destruct (upto stops stack) as [p s] eqn:Eu. destruct (upto_split stops stack p s Eu) as [_ Hs].
+  destruct s as [b|].
+  - destruct Hs as [Hb [rest Hr]]. rewrite Hno in Hb; [discriminate|]. rewrite Hr. apply in_or_app. right. left. reflexivity.
+  - rewrite Hs. reflexivity.
+Qed.
+
+Lemma prefix_stop (stops : bytes -> bool) : forall p s rest s1 a t,
+  p ++ s :: rest = s1 ++ a :: t -> (forall x, In x p -> stops x = false) -> stops a = true ->
+  exists q, s1 ++ [a] = p ++ s :: q.
+Proof.
+  induction p as [|y p IH]; intros s rest s1 a t Heq Hp Ha.
+  - destruct s1 as [|x s1]; cbn [app] in *.
+    + injection Heq as -> _. exists []. reflexivity.
+    + injection Heq as -> _. exists (s1 ++ [a]). reflexivity.
+  - destruct s1 as [|x s1]; cbn [app] in *.
+    + injection Heq as -> _. rewrite (Hp a (or_introl eq_refl)) in Ha. discriminate.
+    + injection Heq as -> Heq. destruct (IH s rest s1 a t Heq (fun z Hz => Hp z (or_intror Hz)) Ha) as [q Hq].
+      exists q. rewrite Hq. reflexivity.
+Qed.
+
+Lemma nodup_app_disjoint {A} (l1 l2 : list A) x : NoDup (l1 ++ l2) -> In x l1 -> In x l2 -> False.
+Proof.
+  induction l1 as [|y l1 IH]; intros Hnd H1 H2; [destruct H1|].
+  cbn [app] in Hnd. inversion Hnd as [|? ? Hnot Hnd']; subst.
+  destruct H1 as [H1|H1]; [subst y; apply Hnot; apply in_or_app; right; exact H2 | exact (IH Hnd' H1 H2)].
+Qed.
+
+(* a handler that answers keeps every handler behind it in the stack from running *)
+Lemma gate_blocks_inner stops s1 a s2 b s3 :
+  NoDup (s1 ++ a :: s2 ++ b :: s3) -> stops a = true ->
+  ~ In (HEnter b) (chain_run stops (s1 ++ a :: s2 ++ b :: s3)) /\
+  ~ In HServed (chain_run stops (s1 ++ a :: s2 ++ b :: s3)).
+Proof.
+  intros Hnd Ha. rewrite chain_run_spec. unfold chain_trace.
+  destruct (upto stops (s1 ++ a :: s2 ++ b :: s3)) as [p s] eqn:Eu.
+  destruct (upto_split stops _ p s Eu) as [Hp Hs].
+  destruct s as [c|].
+  2:{ exfalso. assert (Hin : In a p) by (rewrite <- Hs; apply in_or_app; right; left; reflexivity).
+      rewrite (Hp a Hin) in Ha. discriminate. }
+  destruct Hs as [Hc [rest Hr]]. symmetry in Hr.
+  destruct (prefix_stop stops p c rest s1 a (s2 ++ b :: s3) Hr Hp Ha) as [q Hq].
+  assert (Hsub : forall x, In x (p ++ [c]) -> In x (s1 ++ [a])).
+  { intros x Hx. rewrite Hq. apply in_app_or in Hx as [Hx|[Hx|[]]]; apply in_or_app; [left; exact Hx | right; left; exact Hx]. }
+  assert (Hnd2 : NoDup ((s1 ++ [a]) ++ s2 ++ b :: s3)) by (rewrite <- app_assoc; exact Hnd).
+  assert (Hb : ~ In b (p ++ [c])).
+  { intro Hx. apply (nodup_app_disjoint _ _ b Hnd2 (Hsub b Hx)). apply in_or_app. right. left. reflexivity. }
+  split.
+  - intro Hin. apply Hb. apply in_app_or in Hin as [Hin|Hin].
+    + apply in_map_iff in Hin as [x [Hx Hxin]]. injection Hx as ->. apply in_or_app. left. exact Hxin.
+    + apply in_app_or in Hin as [Hin|Hin].
+      * destruct Hin as [Hin|[Hin|[]]]; [|discriminate]. injection Hin as ->. apply in_or_app. right. left. reflexivity.
+      * apply in_map_iff in Hin as [x [Hx _]]. discriminate.
+  - intro Hin. apply in_app_or in Hin as [Hin|Hin].
+    + apply in_map_iff in Hin as [x [Hx _]]. discriminate.
+    + apply in_app_or in Hin as [Hin|Hin].
+      * destruct Hin as [Hin|[Hin|[]]]; discriminate.
+      * apply in_map_iff in Hin as [x [Hx _]]. discriminate.
+Qed.
+
+(* every pair the property names: the pairs of [documented_pair] and those of the rest of the order *)
+Definition named_pair (a b : bytes) : Prop :=
+  documented_pair a b \/
+  (In a rewriters /\ In b [bs "internal"; bs "redir"; bs "status"]%string) \/
+  (a = bs "request_id"%string /\ b = bs "log"%string) \/
+  (a = bs "log"%string /\ In b (rewriters ++ [bs "gzip"; bs "header"; bs "errors"]%string)) \/
+  (a = bs "gzip"%string /\ In b [bs "header"; bs "errors"]%string).
+
+Lemma named_pair_before a b : named_pair a b -> before gen_directives a b = true.
+Proof.
+  pose proof gen_documented_order_rest as H. unfold documented_order_rest in H.
+  apply andb_true_iff in H as [H _]. apply andb_true_iff in H as [H _]. apply andb_true_iff in H as [H _].
+  apply andb_true_iff in H as [H Hgz]. apply andb_true_iff in H as [H Hlog]. apply andb_true_iff in H as [H Hrid].
+  apply andb_true_iff in H as [H _]. apply andb_true_iff in H as [H _]. apply andb_true_iff in H as [Hint Hrs].
+  intros [Hd | [[Ha Hb] | [[-> ->] | [[-> Hb] | [-> Hb]]]]].
+  - apply documented_pair_before. exact Hd.
+  - destruct Hb as [<- | Hb].
+    + eapply all_before_In; [exact Hint | exact Ha | left; reflexivity].
+    + eapply all_before_In; [exact Hrs | exact Ha | exact Hb].
+  - eapply all_before_In; [exact Hrid | left; reflexivity | left; reflexivity].
+  - eapply all_before_In; [exact Hlog | left; reflexivity | exact Hb].
+  - eapply all_before_In; [exact Hgz | left; reflexivity | exact Hb].
+Qed.
+
+Lemma named_pair_adds a b : named_pair a b -> adds_mw a = true /\ adds_mw b = true.
+Proof.
+  assert (H : forallb adds_mw ([bs "request_id"; bs "log"; bs "gzip"; bs "header"; bs "errors"; bs "internal"; bs "redir"; bs "status"]%string ++ rewriters) = true)
+    by (vm_compute; reflexivity).
+  rewrite forallb_forall in H.
+  intros [Hd | [[Ha Hb] | [[-> ->] | [[-> Hb] | [-> Hb]]]]].
+  - apply documented_pair_adds. exact Hd.
+  - split; apply H; apply in_or_app; [right; exact Ha | left]. cbn in Hb |- *. intuition.
+  - split; apply H; apply in_or_app; left; cbn; intuition.
+  - split; apply H; [apply in_or_app; left; cbn; intuition|].
+    apply in_app_or in Hb as [Hb|Hb]; apply in_or_app; [right; exact Hb | left; cbn in Hb |- *; intuition].
+  - split; apply H; apply in_or_app; left; cbn in Hb |- *; intuition.
+Qed.
+
+Lemma named_nesting (ls : list (@line bytes)) a b :
+  named_pair a b ->
+  present a (http_inspect ERRTOK ls) = true -> present b (http_inspect ERRTOK ls) = true ->
+  exists s1 s2 s3, http_stack ERRTOK gen_directives ls = s1 ++ a :: s2 ++ b :: s3.
+Proof.
+  intros Hp Pa Pb. destruct (named_pair_adds a b Hp) as [Ma Mb].
+  apply stack_nesting; try assumption. apply named_pair_before. exact Hp.
+Qed.
+
+Lemma http_stack_nodup {A} (errtok : A) (ls : list (@line A)) : NoDup (http_stack errtok gen_directives ls).
+Proof. rewrite http_stack_spec. apply NoDup_filter. exact gen_nodup. Qed.
+
+(* every http site, every file order, every pair the property names: when the outer directive's
+   handler answers, the inner directive's handler and the file server never run; when nobody
+   answers, all handlers run nested in list order *)
+Lemma documented_gate_blocks (ls : list (@line bytes)) stops a b :
+  named_pair a b ->
+  present a (http_inspect ERRTOK ls) = true -> present b (http_inspect ERRTOK ls) = true ->
+  stops a = true ->
+  ~ In (HEnter b) (chain_run stops (http_stack ERRTOK gen_directives ls)) /\
+  ~ In HServed (chain_run stops (http_stack ERRTOK gen_directives ls)).
+Proof.
+  intros Hp Pa Pb Ha. destruct (named_nesting ls a b Hp Pa Pb) as [s1 [s2 [s3 Hs]]].
+  pose proof (http_stack_nodup ERRTOK ls) as Hnd. rewrite Hs in *.
+  apply gate_blocks_inner; assumption.
+Qed.
+
+Lemma site_chain_nests {A} (errtok : A) (ls : list (@line A)) stops :
+  (forall d, stops d = false) ->
+  chain_run stops (http_stack errtok gen_directives ls) =
+  let stack := filter (fun d => present d (http_inspect errtok ls)) adds_mw_list in
+  map HEnter stack ++ [HServed] ++ map HExit (rev stack).
+Proof. intros Hno. rewrite chain_nests by (intros d _; apply Hno). rewrite http_stack_documented. reflexivity. Qed.
